@@ -2,8 +2,6 @@
 a real PandoraMachine running matching_cost then disparity on an image pair with per-pixel disparity grids)."""
 from __future__ import annotations
 
-import copy
-
 import numpy as np
 import xarray as xr
 
@@ -158,5 +156,3 @@ def live_block_literals():
         out[name] = [(int(a), int(b)) for a, b in re.findall(r"np\.arange\(\s*(\d+)\s*,\s*\w+\s*,\s*(\d+)\s*\)", src)]
     return out
 
-
-__all__ = ["make_cv", "snapshot", "to_disp", "observe", "make_pair", "run_machine", "live_block_literals", "copy"]
